@@ -1,5 +1,5 @@
-import MJ.Proofs.LexerTop
-import MJ.Proofs.LexerLL
+import MJ.Proofs.LexerLine
+import MJ.Proofs.LexerAC
 /-!
 # C10 — text is verbatim and whitespace control exact under any delimiter configuration
 
@@ -9,24 +9,33 @@ Property theorems only (helper lemmas live in `MJ/Proofs/Lexer*.lean`).
   (`MJ/Model/Lexer.lean`); `find` is the start-marker search — `Lexer.findStart d` is what the
   tokenizer uses: `find_start_marker_memchr` for the default delimiters and the leftmost-longest
   search `findLL d` (the specification of the Aho-Corasick path) otherwise;
-* `Lexer.Tmpl` is a template as a head text and (tag, text) pairs over the tag vocabulary
-  `{{ v }}`, `{% if t %}`, `{% endif %}`, `{% raw %}…{% endraw %}` (each also in its tight form
-  `{{v}}`, `{%if t%}`, `{%raw%}…{%endraw%}`), comments with an arbitrary body (empty, blank, made of
-  `-`/`+` characters, …), every marker in {none, -, +} on every side; `unparse d` writes it with
-  the delimiters `d`;
+* `Lexer.Tmpl` is a template as a head text and (tag, text) pairs; tags are variable and block tags
+  whose interior is any token list (`Lexer.Tok`: blanks, identifiers, decimal integers, string
+  literals with escapes, operators, brackets — e.g. `{{ v }}`, `{{v}}`, `{% if t %}`,
+  `{{ {'a': '}}'} }}`), comments with an arbitrary body (empty, blank, made of `-`/`+` characters,
+  …) and raw blocks `{% raw %}…{% endraw %}` / `{%raw%}…{%endraw%}`, every marker in
+  {none, -, +} on every side; `unparse d` writes it with the delimiters `d`;
 * `Lexer.specRender` applies the five whitespace rules of the statement locally
   (`MJ/Model/LexerSpec.lean`); `renderRes vm bm` is the text a render prints when a variable tag
   prints `vm` and a block tag `bm`;
 * `Lexer.delimFree d tm`: no start delimiter of `d` begins inside a text of `tm` (also not
   straddling into the next tag), at a tag the tag's own start delimiter is the longest match, raw
-  content contains no block start, a comment body does not contain the comment end and is not
-  ambiguous with a marker (`commentOk`: e.g. `{#-#}` is the comment with a *left* `-`, so the tag
-  "empty body, right `-` only" is excluded; `{# - #}` and `{#- - -#}` are fine);
-* `Lexer.goodDelims d`: no line prefixes, distinct non-empty start delimiters that do not begin
-  with whitespace, end delimiters that begin with a character that is neither ASCII whitespace,
-  an identifier character nor `-`/`+`, and do not end in whitespace (true of every family in the
-  property's quantifier except the ones with line prefixes, which are covered by the differential
-  runs of the check).
+  content contains no block start, and every tag reads back as written (`tagOk`): the interior of
+  a variable / block tag is a well-formed token list in which the tag does not end early
+  (`interiorOk`: no token at bracket depth 0 starts with the end delimiter or with `-`/`+` directly
+  in front of it — `{{ x - }}` is fine, `{{ x -}}` is the tag with a right marker), a comment body
+  does not contain the comment end and is not ambiguous with a marker (`{#-#}` is the comment with
+  a *left* `-`; `{# - #}` and `{#- - -#}` are fine);
+* `Lexer.goodDelims d`: pairwise distinct non-empty start delimiters (block, variable, comment and,
+  when set, the line statement and line comment prefixes) that do not begin with whitespace or end
+  in a line break, end delimiters that begin with a character that is neither ASCII whitespace, an
+  identifier character nor `-`/`+`, and do not end in whitespace (true of every family in the
+  property's quantifier);
+* line statements and line comments are tags of their own (`Kind.lineStmt`, `Kind.lineComment`): the
+  tag is the prefix and the interior / comment text, the blanks up to the end of the line and the
+  line break are the beginning of the text behind it; the rules treat them as the block / comment
+  tag occupying that line, i.e. with `trim_blocks` and `lstrip_blocks` on for this tag (`cfgFor`), a
+  line statement also takes the blanks up to the line break (`lineCut`).
 -/
 namespace MJ.C10
 open MJ.Lexer
@@ -39,21 +48,35 @@ def C10_full : Prop :=
     goodDelims d = true → delimFree d tm = true →
     renderRes vm bm (lex cfg d (findStart d) (unparse d tm)) = some (specRender cfg vm bm tm)
 
-theorem findStart_eq_findLL (d : Delims) : findStart d = findLL d := by
-  by_cases h : d = defaultDelims
-  · subst h; exact findStart_default
-  · simp [findStart, h]
+/-- The search the tokenizer uses is the leftmost-longest search for every delimiter set that
+    `SyntaxConfigBuilder::build` accepts (`validatedStartDelims d ≠ none`): `findStart d` is
+    `find_start_marker_memchr` for the default delimiters and otherwise the model of the
+    Aho-Corasick path as `syntax.rs` builds it — the validated pattern list, `pattern_to_marker`,
+    all overlapping matches in the order of their end offsets, and the `max_pattern_len` loop. -/
+theorem findStart_is_leftmostLongest (d : Delims) (pats : List (List Char))
+    (hv : validatedStartDelims d = some pats) : LeftmostLongest d (findStart d) := by
+  rw [findStart_eq_findLL_of_validated hv]; exact findLL_leftmostLongest d
+
+example : validatedStartDelims ⟨['<', '<'], ['>', '>'], ['<', '<', '<', '<'], ['>', '>'], ['<', '<', '#'], ['>'], ['#'], ['#', '#']⟩ =
+    some [['<', '<', '<', '<'], ['<', '<'], ['<', '<', '#'], ['#'], ['#', '#']] := by decide
+
+/-- invalid sets are rejected: duplicate or empty start delimiters -/
+example : validatedStartDelims ⟨['{', '{'], ['}'], ['{', '{'], ['}'], ['{', '#'], ['}'], [], []⟩ = none ∧
+    validatedStartDelims ⟨['{', '%'], ['}'], [], ['}'], ['{', '#'], ['}'], [], []⟩ = none := by decide
+
+theorem findStart_eq_findLL (d : Delims) (hg : goodDelims d = true) : findStart d = findLL d :=
+  findStart_eq_findLL_of_validated (validated_of_good (good_of_goodDelims hg))
 
 theorem lex_eq_spec : C10_full := by
   intro cfg vm bm d tm hg hf
-  rw [findStart_eq_findLL]
+  rw [findStart_eq_findLL d hg]
   exact lex_spec cfg vm bm (good_of_goodDelims hg) tm hf
 
 /-- hypotheses are satisfiable: default delimiters, trim_blocks + lstrip_blocks,
     `a\n  {% if t %}\r\n{{- v +}} x {# c -#}\n` -/
 example : goodDelims defaultDelims = true ∧
     delimFree defaultDelims ⟨['a', '\n', ' ', ' '],
-      [(⟨.block .ifT false, .none, .none⟩, ['\r', '\n']), (⟨.var false, .minus, .plus⟩, [' ', 'x', ' ']),
+      [(⟨.block (vocabIf false), .none, .none⟩, ['\r', '\n']), (⟨.var (vocabV false), .minus, .plus⟩, [' ', 'x', ' ']),
        (⟨.comment [' ', 'c', ' '], .none, .minus⟩, ['\n'])]⟩ = true := by decide
 
 /-- degenerate tags are inside the hypotheses: `a{#-#} {#+#}\n{##}{#--#}{# - #}{#- - -#}{{-v-}}{%-if t-%}\n{%-raw-%}{%-endraw-%}` -/
@@ -61,7 +84,7 @@ example : delimFree defaultDelims ⟨['a'],
       [(⟨.comment [], .minus, .none⟩, [' ']), (⟨.comment [], .plus, .none⟩, ['\n']),
        (⟨.comment [], .none, .none⟩, []), (⟨.comment [], .minus, .minus⟩, []),
        (⟨.comment [' ', '-', ' '], .none, .none⟩, []), (⟨.comment [' ', '-', ' '], .minus, .minus⟩, []),
-       (⟨.var true, .minus, .minus⟩, []), (⟨.block .ifT true, .minus, .minus⟩, ['\n']),
+       (⟨.var (vocabV true), .minus, .minus⟩, []), (⟨.block (vocabIf true), .minus, .minus⟩, ['\n']),
        (⟨.raw [] .minus .minus true, .minus, .minus⟩, [])]⟩ = true := by decide
 
 /-- the ambiguous writing is excluded: "empty body, right `-` only" unparses to `{#-#}`, which
@@ -86,6 +109,79 @@ theorem memchr_is_leftmostLongest :
     funext pre rest; exact findStartDefault_eq_findLL pre rest
   rw [this]; exact findLL_leftmostLongest _
 
+/-- `tokenize_block_or_var` finds the end of a tag exactly behind its interior: for every end
+    delimiter whose first character is not whitespace, an identifier character or a marker, every
+    well-formed token list (blanks, identifiers, integers, string literals with escapes, operators,
+    balanced brackets) in which no token at bracket depth 0 starts like the end of the tag, and
+    every marker `m`, scanning `interior ++ m ++ end ++ x` stops with `x` unread and reports `m`. -/
+theorem interior_end_found (e : List Char) (ts : List Tok) (m : Mark) (x : List Char)
+    (he : headOk e = true) (h : interiorOk e 0 ts (m.src ++ (e ++ x)) = true) :
+    scanTag e false .top 0 (srcs ts ++ (m.src ++ (e ++ x))) = .found x m.ws :=
+  Lexer.interior_end_found he ts m x h
+
+/-- `{{ {'a': '}}'} }}`: the end delimiter inside a string inside braces does not end the tag;
+    `{{ x - }}` has an operator at its end, `{{ 1 -}}` a marker -/
+example :
+    interiorOk ['}', '}'] 0 [.ws [' '], .op '{', .str '\'' ['a'], .op ':', .ws [' '], .str '\'' ['}', '}'], .op '}', .ws [' ']]
+      ['}', '}', 'z'] = true ∧
+    interiorOk ['}', '}'] 0 [.ws [' '], .ident ['x'], .ws [' '], .op '-', .ws [' ']] ['}', '}'] = true ∧
+    interiorOk ['}', '}'] 0 [.ws [' '], .int ['1'], .ws [' ']] ['-', '}', '}'] = true ∧
+    interiorOk ['}', '}'] 0 [.ws [' '], .ident ['x'], .ws [' '], .op '-'] ['}', '}'] = false := by decide
+
+/-- A line statement ends at the end of its line: behind a well-formed interior (brackets closed;
+    at depth 0 blanks contain no line break and are followed by another token) the blanks up to the
+    line break and the line break itself (`\n`, `\r\n`, `\r`) or the end of the input are
+    consumed, nothing more. -/
+theorem line_interior_end_found (ts : List Tok) (fol : List Char)
+    (h : lineInteriorOk 0 ts fol = true) (hf : lineFollow fol = true) :
+    scanTag [] true .top 0 (srcs ts ++ fol) = .found (fol.drop (lineCut fol)) .dflt :=
+  Lexer.line_interior_end_found ts fol h hf
+
+example : lineInteriorOk 0 [.ws [' '], .ident ['i', 'f'], .ws [' '], .op '(', .ident ['t'], .ws ['\n'], .op ')']
+      [' ', '\r', '\n', 'x'] = true ∧ lineFollow [' ', '\r', '\n', 'x'] = true ∧
+    lineCut [' ', '\r', '\n', 'x'] = 3 := by decide
+
+/-- default delimiters with the line statement prefix `#` and the line comment prefix `##` -/
+def lineDelims : Delims := { defaultDelims with ls := ['#'], lc := ['#', '#'] }
+
+/-- `lex_eq_spec` covers configurations with line prefixes:
+    `a\n  # if t  \r\nb {{ v }}\n## note\n# endif` (last line without a line break) -/
+example : goodDelims lineDelims = true ∧
+    delimFree lineDelims ⟨['a', '\n', ' ', ' '],
+      [(⟨.lineStmt (vocabIf false).dropLast, .none, .none⟩, [' ', ' ', '\r', '\n', 'b', ' ']),
+       (⟨.var (vocabV false), .none, .none⟩, ['\n']),
+       (⟨.lineComment [' ', 'n', 'o', 't', 'e'], .none, .none⟩, ['\n']),
+       (⟨.lineStmt (vocabEndif false).dropLast, .none, .none⟩, [])]⟩ = true := by decide
+
+/-- A line statement / line comment behaves as the block / comment tag occupying that whole line:
+    with `trim_blocks` and `lstrip_blocks` on and nothing but the line break behind the line
+    statements, the rules give the same text for the template and for its tag form (every line
+    statement written as the block tag, every line comment as the comment tag, in place). -/
+theorem line_statement_as_tag (cfg : Cfg) (vm bm : List Char) (tm : Tmpl) (h1 : cfg.trim = true)
+    (h2 : cfg.lstrip = true) (hnt : noTrail tm.tail = true) (hm : lineMarksNone tm.tail = true) :
+    specRender cfg vm bm tm = specRender cfg vm bm tm.tagForm :=
+  specRender_tagForm cfg vm bm tm h1 h2 hnt hm
+
+/-- … and so does the tokenizer: lexing the line form and lexing the tag form give the same text -/
+theorem line_lex_as_tag (cfg : Cfg) (vm bm : List Char) (d : Delims) (tm : Tmpl)
+    (hg : goodDelims d = true) (hf : delimFree d tm = true) (hf' : delimFree d tm.tagForm = true)
+    (h1 : cfg.trim = true) (h2 : cfg.lstrip = true) (hnt : noTrail tm.tail = true)
+    (hm : lineMarksNone tm.tail = true) :
+    renderRes vm bm (lex cfg d (findStart d) (unparse d tm)) =
+      renderRes vm bm (lex cfg d (findStart d) (unparse d tm.tagForm)) := by
+  rw [lex_eq_spec cfg vm bm d tm hg hf, lex_eq_spec cfg vm bm d tm.tagForm hg hf',
+    line_statement_as_tag cfg vm bm tm h1 h2 hnt hm]
+
+/-- hypotheses are satisfiable: `x\n # if t\ny\n## c\n# endif\n` and its tag form
+    `x\n {% if t%}\ny\n{# c#}\n{% endif%}\n` -/
+example :
+    (let tm : Tmpl := ⟨['x', '\n', ' '],
+      [(⟨.lineStmt (vocabIf false).dropLast, .none, .none⟩, ['\n', 'y', '\n']),
+       (⟨.lineComment [' ', 'c'], .none, .none⟩, ['\n']),
+       (⟨.lineStmt (vocabEndif false).dropLast, .none, .none⟩, ['\n'])]⟩
+     delimFree lineDelims tm = true ∧ delimFree lineDelims tm.tagForm = true ∧ noTrail tm.tail = true ∧
+       lineMarksNone tm.tail = true) := by decide
+
 /-- Text without a start marker is reproduced byte for byte, except for the one trailing line
     break that goes unless `keep_trailing_newline` is set. -/
 theorem verbatim (cfg : Cfg) (vm bm : List Char) (d : Delims) (t : List Char)
@@ -103,15 +199,25 @@ example : goodDelims defaultDelims = true ∧ noStartIn defaultDelims ['{', ' ',
     name for that side: all trailing whitespace for `-`, the horizontal whitespace back to the
     start of the line for an unmarked block/comment/raw tag under `lstrip_blocks`, nothing
     otherwise (`rightCut`).  `l` characters were already removed on the left. -/
-theorem lead_rule (cfg : Cfg) (first : Bool) (ctx : List Char) (hc : CtxOk first ctx) (g : Tag)
-    (t : List Char) (l : Nat) :
+theorem lead_rule (cfg : Cfg) (first : Bool) (ctx : List Char) (g : Tag) (t : List Char)
+    (hc : CtxInv first ctx t) (hg : g.isLine = false) (l : Nat) :
     leadOf cfg g.l.ws g.marker (t.reverse ++ ctx) (t.drop l) =
       (t.drop l).take (t.length - l - rightCut cfg first g.blockish g.l t) :=
-  leadOf_eq_cut cfg hc g.l g.marker g.blockish (Tag.marker_blockish g) (Tag.marker_ne_lineStmt g)
-    (Tag.marker_ne_lineComment g) t l
+  leadOf_eq_cut cfg t hc g.l g.marker g.blockish (Tag.marker_blockish g) (Tag.marker_ne_lineStmt g hg)
+    (Tag.marker_ne_lineComment g hg) l
+
+/-- … and in front of a line statement / line comment it is the text without the blanks back to
+    the start of the line, whatever the `lstrip_blocks` setting. -/
+theorem lead_rule_line (cfg : Cfg) (first : Bool) (ctx : List Char) (marker : Marker) (t : List Char)
+    (hc : CtxInv first ctx t) (hm : marker = .lineStmt ∨ marker = .lineComment) (l : Nat) :
+    leadOf cfg .dflt marker (t.reverse ++ ctx) (t.drop l) =
+      (t.drop l).take (t.length - l - (if atLineStart first t then sufCount isHws t else 0)) := by
+  rw [leadOf_line_eq_cut cfg t hc marker hm l]
+  simp [cut, rightCut]
 
 example : CtxOk true [] := Or.inl ⟨rfl, rfl⟩
 example : CtxOk false ['}', '%'] := Or.inr ⟨rfl, '}', ['%'], rfl, by decide⟩
+example : CtxInv false [' ', 'c', '#', '#'] ['\n', ' ', ' '] := Or.inr ⟨'\n', by simp, by decide⟩
 
 /-- What is skipped behind a block/comment/raw tag (`handle_tail_ws`: now, or by the pending
     `trim_leading_whitespace`) is exactly the prefix the rules name: all leading whitespace for
@@ -126,14 +232,14 @@ example : NoWsHead ['{', '{'] := Or.inr ⟨'{', ['{'], rfl, by decide⟩
 /-- One round of the root loop on `text ++ tag ++ …`: it emits the text minus both cuts, then the
     tag, and continues behind the tag with the next text's left cut applied or pending. -/
 theorem round_rule (cfg : Cfg) (d : Delims) (hg : goodDelims d = true) (first : Bool) (ctx : List Char)
-    (hc : CtxOk first ctx) (t : List Char) (l : Nat) (hl : l ≤ t.length) (g : Tag) (t' : List Char)
-    (rest : List (Tag × List Char)) (hfree : tailFree d t ((g, t') :: rest) = true) :
+    (t : List Char) (hc : CtxInv first ctx t) (l : Nat) (hl : l ≤ t.length) (g : Tag) (t' : List Char)
+    (rest : List (Tag × List Char)) (hfree : tailFree d first t ((g, t') :: rest) = true) :
     step cfg d (findStart d) ((t.take l).reverse ++ ctx) (t.drop l ++ unparseTail d ((g, t') :: rest)) false =
-      .next (dataOut (cut l (rightCut cfg first g.blockish g.l t) t) ++ tagOuts cfg g)
-        ((t'.take (nextK cfg g.blockish g.r t')).reverse ++ ((g.src d).reverse ++ (t.reverse ++ ctx)))
-        (t'.drop (nextK cfg g.blockish g.r t') ++ unparseTail d rest) (nextTf g.r) := by
-  rw [findStart_eq_findLL]
-  exact step_text_tag cfg (good_of_goodDelims hg) hc t l hl g t' rest hfree
+      .next (dataOut (cut l (rightCutG cfg first g t) t) ++ tagOuts cfg g)
+        ((t'.take (nextKG cfg g t')).reverse ++ ((g.src d).reverse ++ (t.reverse ++ ctx)))
+        (t'.drop (nextKG cfg g t') ++ unparseTail d rest) (nextTf g.r) := by
+  rw [findStart_eq_findLL d hg]
+  exact step_text_tag cfg (good_of_goodDelims hg) t hc l hl g t' rest hfree
 
 /-- A raw block emits its content: what is printed for the tag is the content minus the cuts the
     rules name for the inner sides of `{% raw %}` and `{% endraw %}` … -/
@@ -146,9 +252,11 @@ theorem raw_rule (cfg : Cfg) (vm bm : List Char) (d : Delims) (h t' c : List Cha
   cases hk : cfg.keep
   · exact ⟨cut 0 (rightCut cfg true true l h) h,
       (stripTrailingNl t').drop (leftCut cfg true r (stripTrailingNl t')),
-      by simp [specRender, stripFinal, mapLastText, specTail, tagOut, hk, Tag.blockish, List.append_assoc]⟩
+      by simp [specRender, stripFinal, mapLastText, specTail, tagOut, hk, Tag.blockish, rightCutG, leftCutG, cfgFor,
+        Tag.isLine, List.append_assoc]⟩
   · exact ⟨cut 0 (rightCut cfg true true l h) h, t'.drop (leftCut cfg true r t'),
-      by simp [specRender, specTail, tagOut, hk, Tag.blockish, List.append_assoc]⟩
+      by simp [specRender, specTail, tagOut, hk, Tag.blockish, rightCutG, leftCutG, cfgFor, Tag.isLine,
+        List.append_assoc]⟩
 
 /-- … and the content is verbatim whenever no rule applies to those sides: `+` markers, or no
     marker with `trim_blocks` (start side) / `lstrip_blocks` (end side) off.  In particular the
@@ -197,7 +305,7 @@ def angle4 : Delims :=
 /-- hypotheses of `delim_invariance` are satisfiable by prefix-sharing families and a template
     with look-alike text -/
 example : goodDelims erb = true ∧ goodDelims angle4 = true ∧ goodDelims defaultDelims = true ∧
-    (let tm : Tmpl := ⟨[' ', '}', ' '], [(⟨.var false, .none, .minus⟩, ['\n', '%', ' ']), (⟨.block .ifT true, .plus, .none⟩, ['\n']),
+    (let tm : Tmpl := ⟨[' ', '}', ' '], [(⟨.var (vocabV false), .none, .minus⟩, ['\n', '%', ' ']), (⟨.block (vocabIf true), .plus, .none⟩, ['\n']),
        (⟨.comment [], .plus, .none⟩, ['\n'])]⟩
      delimFree erb tm = true ∧ delimFree angle4 tm = true ∧ delimFree defaultDelims tm = true) := by
   decide
